@@ -53,7 +53,10 @@ class Elbow(RoundSolidShape):
 
         if start_face:
             sketch = source.sketch_1
+            # start face's normal points into the source but the elbow leaves it
+            normal = -sketch.normal
         else:
             sketch = source.sketch_2
+            normal = sketch.normal
 
-        return cls(sketch.center, sketch.radius_point, sketch.normal, sweep_angle, arc_center, rotation_axis, radius_2)
+        return cls(sketch.center, sketch.radius_point, normal, sweep_angle, arc_center, rotation_axis, radius_2)
